@@ -144,6 +144,9 @@ func (v *view) sender(st simcore.Step) int {
 	w := v.w
 	n := len(w.g.Accts)
 	plain := int(st.Arg(0)) % n
+	if s, ok := v.richSender(st); ok {
+		return s
+	}
 	if st.Arg(7)%10 == 9 {
 		return plain
 	}
@@ -546,7 +549,7 @@ func (v *view) build(st simcore.Step, sender int) []sdk.Msg {
 		}
 		return one(&superfluidtypes.MsgSuperfluidUndelegate{Sender: me, LockId: l.ID})
 	}
-	return nil
+	return v.buildRich(st, sender)
 }
 
 func contains(xs []string, s string) bool {
